@@ -49,6 +49,8 @@ def run(rep: Report) -> None:
              "parse() returns a Tree)", floor=8)
     rep.rule("R17.2", "exception closure: what may escape the transformer callbacks through raise/assert is within KeyError and "
              "subclasses of LarkError (armed in the parser zone); int() of an unbounded digit token must be converted to ParseError", floor=6)
+    rep.rule("R17.9", "an exponent read from the text is an int of unbounded size: wherever it (or a multiple of it) meets a float in "
+             "arithmetic on the parse path, the OverflowError of int*float must be converted to ParseError before it leaves parse()", floor=1)
     rep.rule("R17.2i", "inventory: builtin raises in algebra code reachable from the callbacks", armed=False)
     rep.rule("R17.3", "no path from the parse entry points writes a name or symbol registry (or renames an existing object)", floor=1)
     rep.rule("R17.7", "the callbacks of the shared, module-level transformer keep no state on it (parsing the same text twice gives the same result, "
@@ -426,6 +428,7 @@ def run(rep: Report) -> None:
                      "at its first parse", fi.where())
     if n5 == 0:
         rep.ok("R17.5", "parse-path", note="no memoised callback; memoised helpers are keyed by interned objects only")
+    _unbounded_exponent(rep, prog, resolver, reach, ci, allowed)
     rep.trust("the embedded Lark runtime raises only LarkError subclasses for lexing/parsing failures; mypy call resolution")
     rep.not_decided.append("exceptions raised implicitly by the Lark runtime itself (trusted) and by float() (float('1e999') is inf, not an error)")
     rep.assume("dynamically typed arguments conform to declared annotations")
@@ -444,7 +447,8 @@ def _value_error_converted(prog: Program, resolver: Resolver, reach: Reach, f: s
                 names = [exc_name(x) for x in (h.type.elts if isinstance(h.type, ast.Tuple) else [h.type])] if h.type is not None else ["BaseException"]
                 supers = {"ValueError": ("ValueError",), "UnicodeEncodeError": ("UnicodeEncodeError", "UnicodeError", "ValueError"),
                           "UnicodeDecodeError": ("UnicodeDecodeError", "UnicodeError", "ValueError"),
-                          "InvalidOperation": ("InvalidOperation", "DecimalException", "ArithmeticError")}.get(exc, (exc,))
+                          "InvalidOperation": ("InvalidOperation", "DecimalException", "ArithmeticError"),
+                          "OverflowError": ("OverflowError", "ArithmeticError")}.get(exc, (exc,))
                 if any(nm in supers + ("Exception", "BaseException") for nm in names):
                     conv = any(isinstance(s, ast.Raise) and s.exc is not None and allowed(exc_name(s.exc)) for s in ast.walk(h))
                     return (conv, "caught here" if conv else "caught but not re-raised as ParseError/KeyError")
@@ -502,3 +506,103 @@ def _assert_infeasible(prog: Program, resolver: Resolver, rs) -> bool:
         if got and got <= want and all(k == "inst" for k, _ in alts):
             return True
     return False
+
+
+def _unbounded_exponent(rep: Report, prog: Program, resolver: Resolver, reach: Reach, ci, allowed) -> None:
+    """R17.9.  Sources: the int-annotated parameters of the transformer's callbacks (the parser hands them the
+    exponents the exponent callbacks decoded: ints with as many digits as the text had).  Taint follows
+    arguments through the resolved call sites of the parse path (calls, operator dunders); an expression is
+    tainted when it is a tainted name or a sum / product / negation of one.  Sink: `a * b`, `a / b`, `a + b`,
+    `a - b` or `a ** b` with one operand tainted and the other possibly a float - int-to-float coercion of an
+    int beyond 1.8e308 raises OverflowError.  A sink is fine when that exception is caught and re-raised as
+    ParseError / KeyError there or in every caller on the parse path."""
+    tainted: Dict[str, Set[str]] = {}
+    work: List[str] = []
+    for mname, q in sorted(ci.methods.items()):
+        fi = prog.functions.get(q)
+        if fi is None or q not in reach.reached:
+            continue
+        a = fi.node.args  # type: ignore[attr-defined]
+        names = {x.arg for x in a.posonlyargs + a.args + a.kwonlyargs if isinstance(x.annotation, ast.Name) and x.annotation.id == "int"}
+        if names:
+            tainted[q] = set(names)
+            work.append(q)
+    n_src = sum(len(v) for v in tainted.values())
+    if not n_src:
+        rep.ok("R17.9", "sources", note="no callback takes an int decoded from the text")
+        return
+
+    def is_t(f: str, e: ast.AST) -> bool:
+        t = tainted.get(f, set())
+        if isinstance(e, ast.Name):
+            return e.id in t
+        if isinstance(e, ast.UnaryOp) and isinstance(e.op, (ast.USub, ast.UAdd)):
+            return is_t(f, e.operand)
+        if isinstance(e, ast.BinOp) and isinstance(e.op, (ast.Mult, ast.Add, ast.Sub)):
+            return is_t(f, e.left) or is_t(f, e.right)
+        if isinstance(e, ast.Call) and isinstance(e.func, ast.Name) and e.func.id in ("abs", "int") and len(e.args) == 1:
+            return is_t(f, e.args[0])
+        return False
+
+    def local_fix(f: str) -> None:
+        fi = prog.functions[f]
+        changed = True
+        while changed:
+            changed = False
+            for n in Resolver._own_nodes(fi.node):
+                if isinstance(n, (ast.Assign, ast.AnnAssign)) and getattr(n, "value", None) is not None and is_t(f, n.value):
+                    for tg in (n.targets if isinstance(n, ast.Assign) else [n.target]):
+                        if isinstance(tg, ast.Name) and tg.id not in tainted[f]:
+                            tainted[f].add(tg.id)
+                            changed = True
+
+    seen_edges = 0
+    while work:
+        f = work.pop()
+        local_fix(f)
+        for cs in reach.sites.get(f, []):
+            if cs.kind not in ("call", "binop"):
+                continue
+            for tq in cs.targets:
+                tfi = prog.functions.get(tq)
+                if tfi is None:
+                    continue
+                a = tfi.node.args  # type: ignore[attr-defined]
+                pos = [x.arg for x in a.posonlyargs + a.args]
+                implicit = 1 if (cs.kind == "binop" or cs.bound or (tfi.cls and not tfi.is_static and tq.rsplit(".", 1)[-1] in ("__init__", "__new__"))) else 0
+                new = set()
+                for i, arg in enumerate(cs.args):
+                    if isinstance(arg, ast.Starred):
+                        continue
+                    if is_t(f, arg) and i + implicit < len(pos):
+                        new.add(pos[i + implicit])
+                for k, arg in cs.kwargs.items():
+                    if k and is_t(f, arg):
+                        new.add(k)
+                if new - tainted.get(tq, set()):
+                    tainted.setdefault(tq, set()).update(new)
+                    seen_edges += 1
+                    work.append(tq)
+    n_sink = 0
+    for f in sorted(tainted):
+        fi = prog.functions[f]
+        for n in Resolver._own_nodes(fi.node):
+            if not (isinstance(n, ast.BinOp) and isinstance(n.op, (ast.Mult, ast.Div, ast.Add, ast.Sub, ast.Pow, ast.FloorDiv, ast.Mod))):
+                continue
+            for t_side, o_side in ((n.left, n.right), (n.right, n.left)):
+                if not is_t(f, t_side) or is_t(f, o_side):
+                    continue
+                alts = resolver.expr_alts(fi, o_side)
+                if not any(k == "inst" and full == "builtins.float" for k, full in alts):
+                    continue
+                n_sink += 1
+                ok, why = _value_error_converted(prog, resolver, reach, f, n, allowed, set(), "OverflowError")
+                rep.check("R17.9", f"{f}:{ast.unparse(n)[:40]}", ok,
+                          f"`{ast.unparse(n)[:60]}` in {f} multiplies/combines an exponent of unbounded size read from the text "
+                          f"({' -> '.join(reach.path_to(f)[-4:])}) with a value that can be a float: beyond 1.8e308 the int-to-float "
+                          f"coercion raises OverflowError, which escapes parse() ({why}) - e.g. Unit.parse('kB^' + '9' * 400); only "
+                          "ParseError and KeyError may", fi.where(n))
+                break
+    rep.analysed["unbounded_exponent"] = {"sources": n_src, "functions_reached_by_taint": len(tainted), "float_sinks": n_sink}
+    if n_sink == 0:
+        rep.ok("R17.9", "parse-path", note=f"{n_src} source parameter(s), {len(tainted)} functions carry the exponent, no arithmetic with a float")
